@@ -27,6 +27,11 @@ extern ChunkList      UsedDataChunks, UsedCodeChunks;
 extern void (*Disassemble)(
         LargeWord Address, tDisassInfo* pInfo, Boolean IsData, int DataSize);
 
+/* integer syntax of the selected target: Motorola ($1234) unless set */
+extern Boolean DasmIntelSyntax;
+
+extern void DasmHexLiteral(char* pDest, size_t DestSize, LargeWord Value);
+
 extern void dasmdef_init(void);
 
 #endif /* DASMDEF_H */
